@@ -1,0 +1,35 @@
+//! Verification hooks, compiled only with the cargo feature `verif`.
+//!
+//! A *gate* is a named point between two steps of a background task. Unless a
+//! handler has been installed every gate is a no-op; an installed handler may
+//! return a future on which the calling task is parked.
+use std::future::Future;
+use std::path::Path;
+use std::pin::Pin;
+use std::sync::{Arc, RwLock};
+
+pub type GateFuture = Pin<Box<dyn Future<Output = ()> + Send>>;
+pub type GateHandler = Arc<dyn Fn(&'static str, usize, u64) -> Option<GateFuture> + Send + Sync>;
+
+static HANDLER: RwLock<Option<GateHandler>> = RwLock::new(None);
+
+pub fn set_gate_handler(handler: Option<GateHandler>) {
+    *HANDLER.write().unwrap() = handler;
+}
+
+pub async fn gate(name: &'static str, shard: usize, segment: u64) {
+    let handler = HANDLER.read().unwrap().clone();
+    if let Some(handler) = handler {
+        if let Some(fut) = handler(name, shard, segment) {
+            fut.await;
+        }
+    }
+}
+
+/// Shard number encoded in a `.../shard-<n>/<segment>` or `.../shard-<n>` path.
+pub fn shard_of(path: &Path) -> usize {
+    path.ancestors()
+        .filter_map(|p| p.file_name().and_then(|n| n.to_str()))
+        .find_map(|n| n.strip_prefix("shard-").and_then(|s| s.parse().ok()))
+        .unwrap_or(usize::MAX)
+}
